@@ -19,6 +19,7 @@ F_STALE = "C10-tagfilter-cache-stale-after-background-flush"
 F_IN = "C10-in-predicate-ignored-on-showseries-path"
 F_TT = "C10-tag-vs-tag-compares-presence"
 F_TXT = "C10-show-series-text-unescaped"
+F_BF = "C10-bloomfilter-stale-after-disabled-period"
 BASE = (1 << 40) | 1000          # logical clock 1, sequence 1000: the harness' initial generator value
 
 
@@ -239,6 +240,8 @@ def case_coq(c, it_factory=Intern):
             ops.append("CFlush")
         elif k == "bgflush":
             ops.append("CBgFlush")
+        elif k == "config":
+            ops.append("CNop")        # the configuration the index is created with; the model is configuration-independent
         elif k == "clear":
             ops.append("CClear")
         elif k == "reopen":
@@ -429,6 +432,39 @@ def stale_events(cv):
     return ev
 
 
+def bf_events(cv):
+    """op indices of inserts matching the signature of C10-bloomfilter-stale-after-disabled-period: the series key was first
+    inserted while the series-key bloom filter was switched off in an index that had been run with the filter on before (a
+    stored filter exists), and the insert at hand happens after a reopen that switched the filter on again"""
+    ev = set()
+    ops = cv.c["ops"]
+    cfg_on = False          # configured
+    eff_on = False          # in effect for the open index
+    stored = False          # a filter has been persisted (the index ran with the filter on)
+    first = True
+    unfiltered = set()
+    seen = set()
+    for i, o in enumerate(ops):
+        if o["op"] == "config":
+            cfg_on = o.get("bf") == "on"
+            eff_on = cfg_on
+            stored = stored or eff_on
+        elif o["op"] == "reopen":
+            if o.get("bf"):
+                cfg_on = o["bf"] == "on"
+            eff_on = cfg_on and stored          # an existing index without a stored filter keeps the filter off
+            stored = stored or eff_on
+        elif o["op"] == "insert":
+            key = (o["mst"], tuple(tuple(t) for t in o.get("tags") or []))
+            if key not in seen:
+                seen.add(key)
+                if not eff_on and stored:
+                    unfiltered.add(key)
+            elif eff_on and key in unfiltered:
+                ev.add(i)
+    return ev
+
+
 def sources_of_failure(cv, f, classes, cr_current):
     """the known deviation sources of today's code that are present in the failing input; None in the set = an unexplained one"""
     c = cv.c
@@ -436,6 +472,16 @@ def sources_of_failure(cv, f, classes, cr_current):
     src = set()
     dups = [b for b in cv.dup_events() if b <= opi]
     kind = f["kind"]
+    if kind in ("id-unstable", "listing-series", "listing-keys", "listing-values", "listing-vcard", "search-not-bruteforce", "cardinality",
+                "listing-cond-series", "listing-cond-values") and any(b <= opi for b in cv.bf_ev):
+        # a second id for the series exists from the matching insert on: later listings and searches show both ids
+        if kind == "id-unstable":
+            src.add(F_BF if opi in cv.bf_ev or any(c["ops"][b]["mst"] == c["ops"][opi]["mst"] and
+                                                   (c["ops"][b].get("tags") or []) == (c["ops"][opi].get("tags") or []) for b in cv.bf_ev if b <= opi) else None)
+            return src
+        src.add(F_BF)
+        if kind in ("listing-series", "listing-keys", "listing-values", "listing-vcard"):
+            return src
     if kind == "id-unstable":
         # the insert that creates the second id, or a later insert of a key that already has two ids
         ops = c["ops"]
@@ -488,6 +534,8 @@ def sources_of_failure(cv, f, classes, cr_current):
 
 
 WHAT = {
+    "C10-bloomfilter-stale-after-disabled-period": "series-key bloom filter switched on, off and on again across restarts: a series first written while it was "
+                                                   "off is missing from the stored filter and gets a second id",
     "C10-show-series-text-unescaped": "SHOW SERIES renders a key without escaping: a ',' or '=' inside a measurement / tag key / tag value makes the text read as another key",
     "C10-tag-vs-tag-compares-presence": "a predicate tag1 = tag2 / tag1 != tag2 never compares the two values (select path: presence of the tags; "
                                         "show-series path: tag1 against the NAME of tag2)",
@@ -561,7 +609,7 @@ def main(ck):
                               "no axioms (Print Assumptions: closed)", "Go regexp as the oracle of regex atoms; Go regexp/syntax parser for the pattern trees",
                               "Go harness cmd/c10 (generator, brute-force oracle), python driver props/C10/run.py (interning, signatures)"]
     ck.coq_audit(["C10"])
-    ok = ck.coq_build(["C10/Proofs.vo", "C10/RegexProofs.vo", "C10/RegexSem.vo", "C10/RegexNew.vo", "C10/RegexAlt.vo", "C10/RegexSearch.vo", "C10/FlushClear.vo", "C10/ListingCond.vo", "C10/Prune.vo", "C10/Cache.vo", "C10/Corr.vo", "C10/Props.vo", "C10/Refuted.vo"])
+    ok = ck.coq_build(["C10/Proofs.vo", "C10/RegexProofs.vo", "C10/RegexSem.vo", "C10/RegexNew.vo", "C10/RegexAlt.vo", "C10/RegexSearch.vo", "C10/FlushClear.vo", "C10/ListingCond.vo", "C10/Prune.vo", "C10/Cache.vo", "C10/Rows.vo", "C10/Corr.vo", "C10/Props.vo", "C10/Refuted.vo"])
     if ok:
         ck.coq_props(["C10/Props.v", "C10/Refuted.v"])
     ck.log("coq built and property theorems re-checked")
@@ -580,7 +628,7 @@ def main(ck):
     cases = [json.loads(l) for l in out.splitlines() if l.startswith('{"i"')]
     matrices = [json.loads(l) for l in out.splitlines() if l.startswith('{"kind":"regex"')]
     ncorp = sum(1 for c in cases if c["kind"] == "corpus")
-    nsweep = sum(1 for c in cases if c["kind"] in ("sweep", "pairs", "dense", "stale"))
+    nsweep = sum(1 for c in cases if c["kind"] in ("sweep", "pairs", "dense", "stale", "bigrows"))
     if rc != 0 or len(cases) - ncorp - nsweep != n or (n > 0 and nsweep == 0) or (not getattr(ck, "replay", None) and ncorp < len(files)) or len(matrices) != 1:
         ck.broken.append("harness c10 failed rc=%d cases=%d matrices=%d: %s" % (rc, len(cases), len(matrices), out[-800:]))
         return
@@ -663,7 +711,7 @@ def main(ck):
                 # reduces to a pure literal (tf.value is overwritten), else the pattern's source text
                 for p, l in zip(patlist, lits):
                     keytext[p] = "".join(chr(x) for x in l) if l is not None else p
-    stale = {F_ANCH, F_EXPL, F_ESC, F_NIL, F_DUP, F_LIT, F_STALE, F_IN, F_TXT}
+    stale = {F_ANCH, F_EXPL, F_ESC, F_NIL, F_DUP, F_LIT, F_STALE, F_IN, F_TXT, F_BF}
     nviol = 0
     tree_regex_current = False
     if ok:
@@ -809,6 +857,7 @@ def main(ck):
         cv.keytext = keytext
         cv.collisions = collision_events(cv)
         cv.stale = stale_events(cv)
+        cv.bf_ev = bf_events(cv)
         for o in c["ops"]:
             hist[o["op"]] = hist.get(o["op"], 0) + 1
             if o["op"] == "query":
@@ -822,7 +871,10 @@ def main(ck):
         # attributed to it when the oracle failed there on path 2 (then the finding explains it)
         def residual(v):
             # code 30 is information (the show-series path equals the predicate with its IN atoms read as true), not a mismatch
-            return [(b, code) for b, code in v if code != 30 and not (code == 5 and (b in cv.collisions or b in cv.stale))]
+            # from an insert matching the bloom-filter signature on, the implementation carries a second id the model does not have
+            bf0 = min(cv.bf_ev) if cv.bf_ev else None
+            return [(b, code) for b, code in v if code != 30 and not (code == 5 and (b in cv.collisions or b in cv.stale))
+                    and not (bf0 is not None and b >= bf0 and b < 1000)]
         matching = [k for k, v in variants.items() if not residual(v)]
         corr_ok = evaluated and bool(matching)
         v_cur, v_rep = variants.get((True, True, True), []), variants.get((False, False, False), [])
@@ -843,6 +895,12 @@ def main(ck):
         if corr_ok:
             validated += 1
         for f in c["oracle"]:
+            if f["kind"] == "listing-text":
+                # decided on the written keys alone, independent of the model
+                if ck.match_finding(F_TXT):
+                    stale.discard(F_TXT)
+                    ck.known_finding(F_TXT, WHAT[F_TXT])
+                    continue
             if not evaluated:
                 # the model could not be evaluated at all (already recorded in ck.broken): an oracle failure that lies inside the
                 # input part of an open signature is not reported as a new failing input, everything else still is
